@@ -120,7 +120,17 @@ def _r28i(chk, repo) -> None:
         conds = conditions_at(cfg, st)
         # the value whose emptiness decides
         empt = [e.operand for e, pol in conds if pol and isinstance(e, ast.UnaryOp) and isinstance(e.op, ast.Not)] + [e for e, pol in conds if not pol and isinstance(e, (ast.Name, ast.Attribute))]
-        not_str = False
+        for e, pol in conds:
+            # len(V) == 0 / len(V) < 1 / V == () (and their negations on the other arm)
+            if isinstance(e, ast.Compare) and len(e.ops) == 1:
+                l, r, op = e.left, e.comparators[0], e.ops[0]
+                if isinstance(l, ast.Call) and call_name(l) == "len" and l.args and isinstance(r, ast.Constant):
+                    if (pol and ((isinstance(op, ast.Eq) and r.value == 0) or (isinstance(op, ast.Lt) and r.value == 1) or (isinstance(op, ast.LtE) and r.value == 0))) \
+                            or (not pol and ((isinstance(op, (ast.NotEq, ast.Gt)) and r.value == 0) or (isinstance(op, ast.GtE) and r.value == 1))):
+                        empt.append(l.args[0])
+                elif isinstance(r, ast.Tuple) and not r.elts and ((pol and isinstance(op, ast.Eq)) or (not pol and isinstance(op, ast.NotEq))):
+                    empt.append(l)
+        not_str = any(isinstance(e, ast.Compare) and len(e.ops) == 1 and isinstance(e.comparators[0], ast.Tuple) and not e.comparators[0].elts and ((pol and isinstance(e.ops[0], ast.Eq)) or (not pol and isinstance(e.ops[0], ast.NotEq))) for e, pol in conds)
         for e, pol in conds:
             if isinstance(e, ast.Call) and call_name(e) == "isinstance" and len(e.args) == 2:
                 ty = norm(e.args[1])
@@ -925,6 +935,24 @@ def _r28c(chk, repo) -> None:
 from ..selftest import Variant  # noqa: E402
 
 VARIANTS = [
+    Variant(
+        "quiet-null-for-the-empty-tuple-tested-by-type", SEGBASE,
+        "        assert isinstance(value, tuple)\n        # If it's an empty tuple return a dict with None.\n        if not value:\n",
+        "        # If it's an empty tuple return a dict with None.\n        if isinstance(value, tuple) and not value:\n",
+        "QUIET", None, "type test and emptiness in one condition",
+    ),
+    Variant(
+        "quiet-null-store-in-the-else-arm-of-the-leaf-test", SEGBASE,
+        "        if isinstance(value, str):\n            result[key] = value\n            return result\n        assert isinstance(value, tuple)\n        # If it's an empty tuple return a dict with None.\n        if not value:\n            result[key] = None\n            return result\n",
+        "        if isinstance(value, str):\n            result[key] = value\n            return result\n        else:\n            if len(value) == 0:\n                result[key] = None\n                return result\n",
+        "QUIET", None, "else arm, emptiness by len()",
+    ),
+    Variant(
+        "quiet-parse-json-with-explicit-unsorted-keys", CMDS,
+        "            file_output = json.dumps(parsed_strings_dict)\n",
+        "            file_output = json.dumps(parsed_strings_dict, sort_keys=False)\n",
+        "QUIET", None, "the default spelled out",
+    ),
     Variant(
         "parse-json-written-with-sorted-keys", CMDS,
         "            file_output = json.dumps(parsed_strings_dict)\n",
